@@ -11,7 +11,7 @@ def run(ctx):
                 "component of >= 2 elements. I->S: random + adversarial histories recorded from the real DSU, every "
                 "event judged by DsuTrace (A).")
     binary = build(ctx)
-    sizes = ctx.q("{1, 3, 5}", "{1, 3, 6}")
+    sizes = ctx.q("{1, 2, 3, 4, 5}", "{1, 2, 3, 4, 5, 6}")
     mc = ctx.cfg("dsu", "MC_Dsu.cfg", {"Sizes": sizes})
     ctx.mc("dsu", "MC_Dsu", mc, workers=ctx.q(4, 8), timeout=ctx.q(600, 3000),
            expect_actions=["DoReset|Reset", "DoUn", "DoPar", "DoCheck", "DoSize"])
